@@ -24,7 +24,7 @@ ASSUMPTIONS = ["cache diagnostics excluded from the comparison: cache_* / max_de
                "cache_hit / cache_size metrics",
                "TTL expiry is not exercised (wall-clock TTLs of >= 60 s; runs last milliseconds)"]
 
-TEXTS = ["apple", "pear", "apple pear", "kiwi fig"]
+TEXTS = ["apple", "pear", "apple pear", "kiwi fig", "Apple", "apple  pear", "APPLE PEAR"]  # incl. case / whitespace variants
 AGENTS = ["A", "B"]
 
 
@@ -119,9 +119,8 @@ class CacheMachine(RuleBasedStateMachine):
         self.root = self._sb.__enter__()
         world.reset_engine_globals()
         self.eng = {}
-        for i in (0, 1):
-            w = base_world(i)
-            self.eng[i] = {"C": observe.Engine(copy.deepcopy(w), self.root), "F": observe.Engine(copy.deepcopy(w), self.root)}
+        self._worlds = {i: base_world(i) for i in (0, 1)}
+        self._build_engines("bow")
         self.kill = {0: False, 1: False}
         self.turn_no = 0
         self.now_ms = world.NOW_MS
@@ -134,6 +133,22 @@ class CacheMachine(RuleBasedStateMachine):
         self.new_ids = 0
         self.rec = getattr(type(self), "_rec", None)
 
+    def _build_engines(self, encoder):
+        """encoder 'bow' (case-insensitive bag of words) or 'default' (the engine's own content-hash adapter, which is
+        sensitive to case, spacing and word order - queries that merely look alike embed differently)."""
+        for i in (0, 1):
+            w = copy.deepcopy(self._worlds[i])
+            enc = "bow"
+            if encoder == "default":
+                from clematis.adapters.embeddings import DeterministicEmbeddingAdapter
+                ad = DeterministicEmbeddingAdapter(dim=32)
+                for e in w["eps"]:
+                    e["vec_full"] = [float(x) for x in ad.encode([e["text"]])[0]]
+                enc = None
+            self.eng[i] = {"C": observe.Engine(copy.deepcopy(w), self.root, encoder=enc),
+                           "F": observe.Engine(copy.deepcopy(w), self.root, encoder=enc)}
+        self.encoder = encoder
+
     def teardown(self):
         try:
             if self.rec is not None and self.history:
@@ -144,9 +159,12 @@ class CacheMachine(RuleBasedStateMachine):
         finally:
             self._sb.__exit__(None, None, None)
 
-    @initialize(cc=_CACHE_CFGS, vs=st.lists(st.integers(0, len(VARIANTS) - 1), min_size=2, max_size=4, unique=True))
-    def init(self, cc, vs):
+    @initialize(cc=_CACHE_CFGS, vs=st.lists(st.integers(0, len(VARIANTS) - 1), min_size=2, max_size=4, unique=True),
+                encoder=st.sampled_from(["bow", "bow", "default"]))
+    def init(self, cc, vs, encoder):
         self.cache_cfg = cc
+        if encoder != "bow":
+            self._build_engines(encoder)
         # a machine works with a few config variants only, so the same variant recurs (cache hits) and
         # single-leaf neighbours meet (perf gate open/closed with the caps kept)
         for v in list(vs):
@@ -154,7 +172,7 @@ class CacheMachine(RuleBasedStateMachine):
                 if nb not in vs:
                     vs = vs + [nb]
         self.variants = vs
-        self.history.append({"op": "init", "cache": cc, "variants": vs})
+        self.history.append({"op": "init", "cache": cc, "variants": vs, "encoder": encoder})
 
     # ---- rules
     @rule(i=st.sampled_from([0, 1]), agent=st.sampled_from(AGENTS), text=st.sampled_from(TEXTS),
@@ -283,8 +301,13 @@ class CacheMachine(RuleBasedStateMachine):
         self.new_ids += 1
         for side in ("C", "F"):
             idx = self.eng[i][side].state["mem_index"]
+            if getattr(self, "encoder", "bow") == "default":
+                from clematis.adapters.embeddings import DeterministicEmbeddingAdapter
+                vec = DeterministicEmbeddingAdapter(dim=32).encode([text])[0]
+            else:
+                vec = np.asarray(world.BowEncoder().vec(text), dtype=np.float32)
             idx.add({"id": f"n{self.new_ids}", "owner": owner, "text": text, "ts": world.iso_minus(world.NOW_ISO, 7200),
-                     "vec_full": np.asarray(world.BowEncoder().vec(text), dtype=np.float32)})
+                     "vec_full": vec})
 
     @rule(i=st.sampled_from([0, 1]))
     def toggle_kill(self, i):
@@ -309,6 +332,8 @@ def replay_history(history):
             op = st_["op"]
             if op == "init":
                 m.cache_cfg = st_["cache"]
+                if st_.get("encoder", "bow") != "bow":
+                    m._build_engines(st_["encoder"])
                 m.variants = st_.get("variants") or [0]
                 m.history.append(st_)
             elif op == "turn":
